@@ -122,6 +122,89 @@ def jwJelliumDirectOk (lengths : List Nat) (spinless : Bool) (kin pot : List Nat
 
 end
 
+/-! ### external potential of nuclei: `jordan_wigner_dual_basis_hamiltonian` and
+`plane_wave_hamiltonian(plane_wave=False)`
+
+`ext k x j` stands for `(-2π/Ω) / k² · Z_j · cos(k · (R_j − r_x))` (momentum index `k`, grid point `x`, nucleus
+number `j`), the coefficient computed by the direct form; the FermionOperator form computes the same expression
+with prefactor `-4π/Ω`, i.e. exactly twice it.  `skipK k` stands for `momenta_squared == 0`. -/
+
+section
+variable (tol : Rat)
+
+/-- `QubitOperator((), c) - QubitOperator(((p, 'Z'),), c)` -/
+def extPair (p : Nat) (c : GQ) : Op := isub tol (mk .qubit [] c) (mk .qubit [(p, 3)] c)
+
+/-- the operands of `external_potential +=`, in program order -/
+def extDirectImgs (lengths : List Nat) (spinless : Bool) (nNuc : Nat) (skipK : List Nat → Bool)
+    (ext : List Nat → List Nat → Nat → GQ) : List Op :=
+  let nq := if spinless then prodL lengths else 2 * prodL lengths
+  (allPoints lengths).flatMap fun k => if skipK k then [] else
+    (List.range nq).flatMap fun p => (List.range nNuc).map fun j =>
+      extPair tol p (ext k (gridIndices lengths p spinless) j)
+
+/-- `jordan_wigner_dual_basis_hamiltonian(grid, geometry, spinless, False)` with a geometry of `nNuc` nuclei -/
+def jwDualBasisHam (lengths : List Nat) (spinless : Bool) (kin pot : List Nat → GQ) (nNuc : Nat)
+    (skipK : List Nat → Bool) (ext : List Nat → List Nat → Nat → GQ) : Op :=
+  let jellium := jwJelliumDirect tol lengths spinless kin pot none
+  let external := (extDirectImgs tol lengths spinless nNuc skipK ext).foldl (fun acc img => iadd tol acc img) []
+  iadd tol jellium external
+
+def jwDualBasisHamOk (lengths : List Nat) (spinless : Bool) (kin pot : List Nat → GQ) (nNuc : Nat)
+    (skipK : List Nat → Bool) (ext : List Nat → List Nat → Nat → GQ) : Bool :=
+  let nq := if spinless then prodL lengths else 2 * prodL lengths
+  jwJelliumDirectOk tol lengths spinless kin pot none
+  && C04.sumOk tol (extDirectImgs tol lengths spinless nNuc skipK ext)
+  && ((allPoints lengths).all fun k => skipK k || (List.range nq).all fun p => (List.range nNuc).all fun j =>
+      C04.iaddOk tol (mk .qubit [] (ext k (gridIndices lengths p spinless) j))
+        ((mk .qubit [(p, 3)] (ext k (gridIndices lengths p spinless) j)).map fun tc => (tc.1, -tc.2)))
+  && C04.iaddOk tol (jwJelliumDirect tol lengths spinless kin pot none)
+      ((extDirectImgs tol lengths spinless nNuc skipK ext).foldl (fun acc img => iadd tol acc img) [])
+
+/-- the operands of `dual_basis_external_potential` (`operator = …` for the first, `operator += …` afterwards) -/
+def extModelImgs (lengths : List Nat) (spinless : Bool) (nNuc : Nat) (skipK : List Nat → Bool)
+    (ext : List Nat → List Nat → Nat → GQ) : List Op :=
+  (allPoints lengths).flatMap fun x => (List.range nNuc).flatMap fun j => (allPoints lengths).flatMap fun k =>
+    if skipK k then [] else
+      (spins spinless).map fun σ =>
+        mk .fermion [(orbitalId lengths x σ, 1), (orbitalId lengths x σ, 0)] (⟨2, 0⟩ * ext k x j)
+
+/-- `dual_basis_external_potential(grid, geometry, spinless)`: `none` if no term was generated -/
+def extModel (lengths : List Nat) (spinless : Bool) (nNuc : Nat) (skipK : List Nat → Bool)
+    (ext : List Nat → List Nat → Nat → GQ) : Option Op :=
+  match extModelImgs lengths spinless nNuc skipK ext with
+  | [] => none
+  | first :: rest => some (rest.foldl (fun acc img => iadd tol acc img) first)
+
+/-- `plane_wave_hamiltonian(grid, geometry, spinless, plane_wave=False, include_constant=False)`; the library
+raises `TypeError` when the external potential is `None` — modelled as the jellium part alone -/
+def dualBasisHamModel (lengths : List Nat) (spinless : Bool) (kin pot : List Nat → GQ) (nNuc : Nat)
+    (skipK : List Nat → Bool) (ext : List Nat → List Nat → Nat → GQ) : Op :=
+  let jellium := dualBasisModel tol lengths spinless kin pot none
+  match extModel tol lengths spinless nNuc skipK ext with
+  | none => jellium
+  | some e => iadd tol jellium e
+
+def dualBasisHamModelOk (lengths : List Nat) (spinless : Bool) (kin pot : List Nat → GQ) (nNuc : Nat)
+    (skipK : List Nat → Bool) (ext : List Nat → List Nat → Nat → GQ) : Bool :=
+  dualBasisModelOk tol lengths spinless kin pot none
+  && (match extModelImgs lengths spinless nNuc skipK ext with
+      | [] => true
+      | first :: rest =>
+        C04.sumOkFrom tol first rest
+        && C04.iaddOk tol (dualBasisModel tol lengths spinless kin pot none)
+            (rest.foldl (fun acc img => iadd tol acc img) first))
+
+end
+
+/-- the hypotheses on the coefficient functions of `jw_jellium_direct_sound`, as a decidable check: `K`, `P` even
+functions of the displacement and `Σ_δ P(δ) = 0`; evaluated by the driver -/
+def jelliumHypOk (lengths : List Nat) (kin pot : List Nat → GQ) : Bool :=
+  let pts := allPoints lengths
+  (pts.all fun u => pts.all fun v =>
+    kin (subIdx lengths u v) == kin (subIdx lengths v u) && pot (subIdx lengths u v) == pot (subIdx lengths v u))
+  && (pts.map pot).sum == 0
+
 /-- coefficient function from a table indexed by `tensorFactor` of the displacement -/
 def tableFn (lengths : List Nat) (table : List GQ) (δ : List Nat) : GQ := table.getD (tensorFactor lengths δ) 0
 
